@@ -120,16 +120,16 @@ _MATCH = lambda r: '(%s[%s][0] == event and (%s[%s][1] is None or %s[%s][1] == s
 _LAST = lambda r: '%s[%s][3].last' % (_CBS, r)
 _BEFORE = lambda x, y: '((not %s and %s) or (%s == %s and %s < %s))' % (_LAST(x), _LAST(y), _LAST(x), _LAST(y), x, y)   # dispatch order on registration indices
 _MONITOR = {'requires': [('passes-sender-and-arguments-through-unchanged', 'len(call_args) == 1 and call_args[0] == sender and len(call_star) == 1 and call_star[0] == args')],
-            'updates': {'calls': 'calls + [callee]', 'reg': 'reg + [origin(callbacks, t)]', 'cp': 'cp + [t]', 'rets': 'rets + [call_ret]'}}
+            'updates': {'calls': 'calls + [callee]', 'reg': 'reg + [origin(callbacks, t, self._callbacks)]', 'cp': 'cp + [t]', 'rets': 'rets + [call_ret]'}}
 _TRACE_OK = [('trace-lengths', 'len(calls) == len(reg) and len(rets) == len(reg)'),
              ('only-registered-callbacks-matching-event-and-sender', 'all(0 <= reg[a] and reg[a] < len(%s) and %s and calls[a] == %s[reg[a]][2] for a in range(len(reg)))' % (_CBS, _MATCH('reg[a]'), _CBS))]
 _LOOP = {0: {'idx': 't', 'seq': 'L', 'invariant': [
     ('trace-so-far', '0 <= t and t <= len(L) and len(calls) == len(reg) and len(rets) == len(reg) and len(cp) == len(reg) and len(res) == len(reg)'),
-    ('calls-are-listed-positions-in-order', 'all(0 <= cp[a] and cp[a] < t and reg[a] == origin(callbacks, cp[a]) and calls[a] == L[cp[a]][2] and res[a] == rets[a] and L[cp[a]][0] == event and (L[cp[a]][1] is None or L[cp[a]][1] == sender) for a in range(len(cp))) and all(cp[a] < cp[b] for a in range(len(cp)) for b in range(a + 1, len(cp)))'),
+    ('calls-are-listed-positions-in-order', 'all(0 <= cp[a] and cp[a] < t and reg[a] == origin(callbacks, cp[a], self._callbacks) and calls[a] == L[cp[a]][2] and res[a] == rets[a] and L[cp[a]][0] == event and (L[cp[a]][1] is None or L[cp[a]][1] == sender) for a in range(len(cp))) and all(cp[a] < cp[b] for a in range(len(cp)) for b in range(a + 1, len(cp)))'),
     ('every-matching-position-so-far-was-called', 'all(implies(L[p][0] == event and (L[p][1] is None or L[p][1] == sender), any(cp[a] == p for a in range(len(cp)))) for p in range(t))')]}}
-_CUTS = [('callbacks +=', 'listed-are-registered', 'all(0 <= origin(callbacks, p) and origin(callbacks, p) < len(%s) and callbacks[p] == %s[origin(callbacks, p)] for p in range(len(callbacks)))' % (_CBS, _CBS)),
-         ('callbacks +=', 'every-registered-callback-is-listed', 'all(any(origin(callbacks, p) == r for p in range(len(callbacks))) for r in range(len(%s)))' % _CBS),
-         ('callbacks +=', 'list-order-is-dispatch-order', 'all(%s for p in range(len(callbacks)) for q in range(p + 1, len(callbacks)))' % _BEFORE('origin(callbacks, p)', 'origin(callbacks, q)'))]
+_CUTS = [('callbacks +=', 'listed-are-registered', 'all(0 <= origin(callbacks, p, self._callbacks) and origin(callbacks, p, self._callbacks) < len(%s) and callbacks[p] == %s[origin(callbacks, p, self._callbacks)] for p in range(len(callbacks)))' % (_CBS, _CBS)),
+         ('callbacks +=', 'every-registered-callback-is-listed', 'all(any(origin(callbacks, p, self._callbacks) == r for p in range(len(callbacks))) for r in range(len(%s)))' % _CBS),
+         ('callbacks +=', 'list-order-is-dispatch-order', 'all(%s for p in range(len(callbacks)) for q in range(p + 1, len(callbacks)))' % _BEFORE('origin(callbacks, p, self._callbacks)', 'origin(callbacks, q, self._callbacks)'))]
 
 contract(E, 'EventEmitter.emit', variant='all', props=['C19'], params={'event': 'elem', 'sender': 'elem', 'args': 'elem', 'kwargs': 'rec[x:int]'}, fields=EM_FIELDS,
     ghost={'calls': "empty('elem')", 'reg': "empty('int')", 'cp': "empty('int')", 'rets': "empty('elem')"}, on_call=_MONITOR, loops=_LOOP, cuts=_CUTS, locals={'res': 'list[elem]'},
